@@ -84,6 +84,13 @@ Definition new_opmanager (now : N) (n : node) : node :=
 Definition notify_lost_leadership (n : node) : node :=
   respond_all (respond_all n (map ro_fid (n_ro n)) FNotLeader) (map snd (n_pending n)) FNotLeader.
 
+(* cancelConfigurationChange (fix: D16) *)
+Definition cancel_conf_change (n : node) : node :=
+  match n_cfg_fid n with
+  | Some f => (respond n f FNotLeader) <| n_cfg_fid := None |>
+  | None => n
+  end.
+
 (* resetSnapshotFiles: close readers, discard the writer *)
 Definition reset_snapshot_files (n : node) : node :=
   n <| n_followers ::= map (fun p => (fst p, snd p <| f_snap := None |>)) |> <| n_partial := None |>.
@@ -93,10 +100,10 @@ Definition become_follower (now : N) (n : node) (leader : nid) (term : N) : node
   let vote := if term =? n_term n then n_vote n else None in
   let n1 := n <| n_role := Follower |> <| n_term := term |> <| n_leader := Some leader |> <| n_vote := vote |> in
   let n2 := reset_snapshot_files (persist n1) in
-  new_opmanager now (notify_lost_leadership n2).
+  cancel_conf_change (new_opmanager now (notify_lost_leadership n2)).
 
 Definition stepdown (now : N) (n : node) : node :=
-  new_opmanager now (notify_lost_leadership (n <| n_role := Follower |>)).
+  cancel_conf_change (new_opmanager now (notify_lost_leadership (n <| n_role := Follower |>))).
 
 (* nextConfiguration(next); next = None models the nil pointer (panic) *)
 Definition next_configuration (now : N) (n : node) (next : option config) : node :=
